@@ -488,8 +488,11 @@ def _degrees_to_modifications(chord_degrees, target_chord_degrees):
   modifications_str = ''
   for degree in target_degrees:
     if degree not in degrees:
-      # Add a scale degree.
+      # Add a scale degree. An added 7th is relative to the dominant (flat) 7th
+      # (see _add_scale_degree), so e.g. a major 7th is spelled 'add#7'.
       alter = target_degrees[degree]
+      if degree == 7:
+        alter += 1
       alter_str = abs(alter) * ('#' if alter >= 0 else 'b')
       if alter and degree > 7:
         modifications_str += '(%s%d)' % (alter_str, degree)
